@@ -387,6 +387,14 @@ fn deser(t: Target, inp: &Input) -> Option<Result<Box<dyn Obj>, String>> {
     })
 }
 
+fn hex(b: &[u8]) -> String {
+    let mut s = String::with_capacity(2 * b.len());
+    for x in b {
+        s.push_str(&format!("{:02x}", x));
+    }
+    s
+}
+
 fn num_after(msg: &str, pat: &str) -> Option<u64> {
     let i = msg.find(pat)? + pat.len();
     let digits: String = msg[i..].chars().take_while(|c| c.is_ascii_digit()).collect();
@@ -825,6 +833,15 @@ impl Case<'_> {
 
     /// feed one stream to one target; emits a `de` line when the wire value is known, else a `blind` line
     fn feed(&mut self, t: Target, fmt: &str, inp: &Input, wire: Option<(&Wire, String)>, rt: Option<usize>, use_it: bool) {
+        // the bytes / text that are fed, for the driver's transport check (the modelled readers of Spec/SerdeText.lean):
+        // bincode always; JSON text when it is in the canonical field order and free of white space
+        let src = match inp {
+            Input::Bin(b) if b.len() <= 20_000 => format!(" hex={}", hex(b)),
+            Input::Text(s) if wire.as_ref().map(|w| w.1 == "nhpe").unwrap_or(false) && !s.chars().any(|c| c.is_whitespace()) && s.len() <= 40_000 => {
+                format!(" txt={}", s)
+            }
+            _ => String::new(),
+        };
         let res = deser(t, inp);
         let (ans, obj) = match res {
             None => ("panic".to_string(), None),
@@ -836,7 +853,7 @@ impl Case<'_> {
                 let k = self.next_slot;
                 self.next_slot += 1;
                 let rts = rt.map(|x| x.to_string()).unwrap_or("-".into());
-                self.ctx.line(&format!("de {} {} {} ord={} rt={} {}", k, t.words(), fmt, ord, rts, w.show()), &ans);
+                self.ctx.line(&format!("de {} {} {} ord={} rt={} {}{}", k, t.words(), fmt, ord, rts, w.show(), src), &ans);
                 if let Some(mut g) = obj {
                     // a structure with runaway lists is not used further (operations on it may not terminate)
                     if use_it && !ans.contains("RUNAWAY") {
@@ -1385,8 +1402,29 @@ fn run_inner(ctx: &mut Ctx, case: u64) {
         None => if produced { "undecodable".to_string() } else { "panic".to_string() },
     };
     c.ctx.line("ser 0 jv", &show(&w_val, val.is_some()));
-    c.ctx.line("ser 0 js", &if text_order_ok || text.is_none() { show(&w_text, text.is_some()) } else { "field-order-changed".to_string() });
-    c.ctx.line("ser 0 bin", &show(&w_bin, bin.is_some()));
+    // the JSON text and the bincode bytes themselves: the driver reads them with the modelled readers and compares them
+    // with the modelled printers' output for the mirror model's wire value
+    let _ = text_order_ok;
+    c.ctx.line(
+        "ser 0 js",
+        &match &text {
+            // the text, and the harness's own reading of it (used by the driver only when the text is not in the
+            // canonical grammar its reader models, e.g. after a harmless change of the field order)
+            Some(t) if !t.chars().any(|ch| ch.is_whitespace()) => match &w_text {
+                Some(w) => format!("ok {} {}", t, w.show()),
+                None => format!("ok {}", t),
+            },
+            Some(_) => "text-with-white-space".to_string(),
+            None => "panic".to_string(),
+        },
+    );
+    c.ctx.line(
+        "ser 0 bin",
+        &match &bin {
+            Some(b) => format!("ok {}", hex(b)),
+            None => "panic".to_string(),
+        },
+    );
     let wire = match w_val.or(w_text).or(w_bin) {
         Some(w) => w,
         None => return,
